@@ -46,6 +46,7 @@ def main():
     ap.add_argument('--kind', required=True)
     ap.add_argument('--what', default='')
     ap.add_argument('--seeds', default='0,1')
+    ap.add_argument('--related', default=os.environ.get('KB_RELATED'), help='comma list: run only these related properties (default: by touched file, plus C09)')
     a = ap.parse_args()
     wt = a.worktree
     run = lambda cmd, **kw: subprocess.run(cmd, capture_output=True, text=True, **kw)
@@ -77,6 +78,8 @@ def main():
                 props.append(p)
     if 'C09' not in props:
         props.append('C09')
+    if a.related is not None:
+        props = [a.prop] + [p for p in a.related.split(',') if p and p != a.prop]
     # the property's own check on every seed, the related ones on the first seed
     res = {'checks': {}}
     for plist, seeds in (([a.prop], a.seeds), (props[1:], a.seeds.split(',')[0])):
